@@ -325,8 +325,8 @@ func constCompare(atom ssa.Value) (v ssa.Value, c string, isEq bool, ok bool) {
 }
 
 type reachCtx struct {
-	tracked     map[*ssa.Phi]bool   // phis compared with constants somewhere
-	interesting map[ssa.Value]bool  // non-constant values flowing into tracked phis
+	tracked     map[*ssa.Phi]bool  // phis compared with constants somewhere
+	interesting map[ssa.Value]bool // non-constant values flowing into tracked phis
 }
 
 func newReachCtx(fn *ssa.Function) *reachCtx {
